@@ -221,10 +221,11 @@ def check_fault_wire(sched, rec):
             pr.append('fault arrived as (%r, %r)' % (code, string))
         if st == 'fn_fault_detail':
             if isinstance(detail, dict):
-                if detail != {'first': {'k': 'v'}, 'second': 'w'}:
+                if detail != {'first': {'k': 'v', 'zero': 0, 'no': False}, 'second': 'w'}:
                     pr.append('detail arrived as %r' % (detail,))
             elif not detail or b'first' not in detail or b'second' not in detail or b'>v<' not in detail \
-                    or b'>w<' not in detail:
+                    or b'>w<' not in detail or b'>0<' not in detail or b'>False<' not in detail:
+                # (XML family: leaves are written as text; the falsy ones 0 / False keep their value)
                 pr.append('detail arrived as %r' % (detail,))
         elif detail not in (None, '', {}):
             pr.append('unexpected detail %r' % (detail,))
